@@ -195,7 +195,7 @@ def check(sc, r):
     if ab is not None:
         return out  # pynetdicom itself aborted: outside the property
     phase = _phase(sc, r)
-    where = "%s/%s" % (sc["op"], "handler" if phase["active"] else "idle")
+    where = "%s/%s" % (sc["op"], ("subop-pending" if phase.get("subop_pending") else "handler") if phase["active"] else "idle")
     if rp is None:
         out.append(C.v("release-answered", "C07/no-release-rp/%s" % where,
                        "A-RELEASE-RQ delivered (seq %s, phase %s) but no A-RELEASE-RP written; acceptor events: released=%d aborted=%d" % (
@@ -223,7 +223,10 @@ def _phase(sc, r):
     end = next((h["seq"] for h in hs if h["phase"] == "end"), None)
     ny = len([h for h in hs if h["phase"] == "yield" and h["seq"] < s])
     active = start is not None and start < s and (end is None or s < end)
-    return {"active": active, "yields": ny}
+    # is the SCP waiting for the response to a C-STORE sub-operation it sent?
+    sent = [h["seq"] for h in r.evts("acc0", "EVT_DIMSE_SENT") if h["msg"] == "C_STORE_RQ" and h["seq"] < s]
+    got = [h["seq"] for h in r.evts("acc0", "EVT_DIMSE_RECV") if h["msg"] == "C_STORE_RSP" and h["seq"] < s]
+    return {"active": active, "yields": ny, "subop_pending": len(sent) > len(got)}
 
 
 def nontrivial(sc, r):
